@@ -48,10 +48,13 @@ def _req(table, k):
     if k <= 8: return table[k - 2]
     if k == 9: return [table[2], table[4]]
     if k == 10: return [table[5]]
-    return [table[4], table[6]]
+    if k == 11: return [table[4], table[6]]
+    # two non-final states listed later-first (and, for tasks, with the later
+    # one sorting first alphabetically): the earliest one counts
+    return [table[2], table[1]]
 
 
-N_REQ = 12
+N_REQ = 13
 
 
 def _req_set(table, k):
@@ -150,11 +153,11 @@ def _run_single(mod, ent, table, val, traj, kreq, tmo, call):
 _SINGLE = dict(
     params={'kreq': (0, N_REQ - 1), 's0': (0, NR - 1), 's1': (0, NR - 1),
             's2': (0, NR - 1), 'tmo': (0, 4)},
-    partition={'quick': ('kreq', 6), 'thorough': ('kreq', 12)},
+    partition={'quick': ('kreq', 7), 'thorough': ('kreq', 13)},
     shapes={'quick': [{'n': 2}], 'thorough': [{'n': 3}]},
     timeout={'quick': 200, 'thorough': 900},
-    bounds='requested state argument from 12 forms (None, [], 7 single '
-           'states, 3 lists); trajectory of n states over a 7-state '
+    bounds='requested state argument from 13 forms (None, [], 7 single '
+           'states, 4 lists); trajectory of n states over a 7-state '
            'representative table, monotone; timeout None or 1..4 poll '
            'intervals (symbolic)',
     stubs=['time module of the module under test -> fake clock',
@@ -277,7 +280,7 @@ _MULTI = dict(
     params={'kreq': (0, N_REQ - 1), 'a0': (0, NR - 1), 'a1': (0, NR - 1),
             'b0': (0, NR - 1), 'b1': (0, NR - 1), 'tmo': (0, 3),
             'form': (0, 2)},
-    partition={'quick': ('kreq', 12), 'thorough': ('kreq', 12)},
+    partition={'quick': ('kreq', 13), 'thorough': ('kreq', 13)},
     shapes={'quick': [{'bfix': True, 'tmax': 2, 'skip': [3, 5, 8]}],
             'thorough': [{'bfix': False}]},
     timeout={'quick': 300, 'thorough': 1800},
@@ -285,7 +288,7 @@ _MULTI = dict(
            'table; entity B: quick: fixed trajectories chosen by b0 in {stay '
            'non-final, reach DONE at poll 1, final from the start}, thorough: '
            'arbitrary 2-state trajectory; uids argument form: None / single '
-           'uid / list of both; quick: timeout <= 2 polls and 9 of the 12 '
+           'uid / list of both; quick: timeout <= 2 polls and 10 of the 13 '
            'requested-state forms',
     stubs=_SINGLE['stubs'])
 
